@@ -282,6 +282,34 @@ def run(report, p):
                 a0 = call.args[0] if call.args else None
                 r7.check(a0 is not None and all(o[0] == "elem" and is_call(o[1], "os.walk") for o in pr.origins(a0, df)) or (a0 is not None and any(o[0] == "elem" for o in pr.origins(a0, df))), df, call, "the nested history is not loaded from the directory that contains the ascmhl folder")
 
+    # ... and the walk is not pruned: os.walk (top-down) descends only into what is left in its dirnames list - the list may be re-ordered, nothing else
+    for df in disc:
+        for lp in [n for n in walk_no_nested(df.node) if isinstance(n, ast.For) and isinstance(n.iter, ast.Call) and norm(n.iter.func).endswith("os.walk") and isinstance(n.target, ast.Tuple) and len(n.target.elts) == 3 and isinstance(n.target.elts[1], ast.Name)]:
+            dn = lp.target.elts[1].id
+            r7.instance(df, lp, f"walk over {norm(lp.iter)[:40]}: dirnames `{dn}`")
+            if any(k.arg == "topdown" and p.fold(k.value, df) is False for k in lp.iter.keywords):
+                continue
+            for st in lp.body:
+                for n in ast.walk(st):
+                    bad = None
+                    if isinstance(n, ast.Assign) and any((isinstance(t, ast.Subscript) and isinstance(t.value, ast.Name) and t.value.id == dn) or (isinstance(t, ast.Name) and t.id == dn) for t in n.targets):
+                        v = n.value
+                        if not (isinstance(v, ast.Call) and norm(v.func) in ("sorted", "list", "reversed") and len(v.args) == 1 and isinstance(v.args[0], ast.Name) and v.args[0].id == dn and not any(k.arg == "key" for k in v.keywords)):
+                            bad = n
+                    elif isinstance(n, ast.Call) and isinstance(n.func, ast.Attribute) and isinstance(n.func.value, ast.Name) and n.func.value.id == dn and n.func.attr in ("remove", "pop", "clear", "__delitem__"):
+                        bad = n
+                        if n.func.attr == "clear":
+                            # not going deeper below a folder whose history was just handed to the loader (which discovers what is beneath) is the one legitimate pruning
+                            blk = parent(parent(n))
+                            body = getattr(blk, "body", [])
+                            stmt = parent(n)
+                            if stmt in body and any(any(isinstance(x, ast.Call) and loader.qual in p.resolve_call(x, df) for x in ast.walk(b4)) for b4 in body[: body.index(stmt)]):
+                                bad = None
+                    elif isinstance(n, ast.Delete) and any(isinstance(t, ast.Subscript) and isinstance(t.value, ast.Name) and t.value.id == dn for t in n.targets):
+                        bad = n
+                    if bad is not None:
+                        r7.check(False, df, bad, f"the discovery edits the directory list of os.walk (`{norm(bad)[:70]}`): folders taken out of it are never entered, so a nested history below such a folder is not found - it is neither verified nor given a new generation, and its files are attributed to the history above", construct="os.walk dirnames pruned in the child discovery")
+
     # ... and the loader runs the discovery on every path that returns a history (no option, flag or early return can switch it off:
     # nested chains are only ever verified as a side effect of loading the children)
     gl5 = cfg_of(loader)
